@@ -21,7 +21,7 @@ TECHNIQUE = (
 )
 RULE = (
     "matrix: for each of the 6.8k extractors one witness (shortest word of its regex NFA) x all ordered neighbour pairs from a "
-    "7-symbol set (quick) / 12-symbol set plus 36 two-character neighbours (thorough), ASCII and multi-byte; docs: all concatenations of <= k "
+    "7-symbol set (quick) / 12-symbol set plus 36 two-character neighbours (thorough), ASCII and multi-byte; punct: every id./supra/stop-word/section witness x every run of <= 3 punctuation marks (ASCII and multi-byte) on each side; docs: all concatenations of <= k "
     "fragments of A14 (multi-byte characters before, after, between and at literal positions inside citations) vs the plain "
     "reference Tokenizer; cache: every fault of the fault model applied to a freshly written cache of a 7-extractor list, then "
     "a new tokenizer is built and 20 texts tokenised; crash: the real writer is killed after N bytes for every N of the crash-point "
@@ -208,21 +208,35 @@ def genuine(text, tokd):
 
 
 def class_matched_multibyte(text, tokd, ref_tok):
-    """True when the candidate contains a multi-byte character at a position matched by a character
-    class of its pattern (rather than by a literal): substituting a different multi-byte letter there
-    leaves a candidate of the same kind at the same offsets."""
+    """True when the candidate contains a multi-byte character at a position where byte classes and code-point classes
+    cannot coincide: the position is matched by a character class of the pattern (substituting another multi-byte letter
+    leaves a candidate of the same kind at the same offsets) AND that class is either sensitive to the Unicode category of
+    the character (a multi-byte punctuation mark there kills the candidate: \\w-like classes) or matches exactly one
+    character (two multi-byte letters there kill the candidate: a byte automaton sees two or three bytes). A position under
+    an unbounded repetition of a class that accepts every non-ASCII character (\\S*, [^\\sa-zA-Z0-9]*) is inside the domain:
+    there every byte of the character satisfies the byte class, so the two readings do coincide."""
+
+    def survives(t2, end_shift=0):
+        try:
+            for t in ref_tok.extract_tokens(t2):
+                if type(t).__name__ == tokd["kind"] and (t.start, t.end) == (tokd["start"], tokd["end"] + end_shift):
+                    return True
+        except Exception:  # noqa: BLE001
+            return False
+        return False
+
     for i in range(tokd["start"], tokd["end"]):
         c = text[i]
         if ord(c) < 128:
             continue
-        sub = "ü" if c != "ü" else "ö"
-        t2 = text[:i] + sub + text[i + 1 :]
-        try:
-            for t in ref_tok.extract_tokens(t2):
-                if type(t).__name__ == tokd["kind"] and (t.start, t.end) == (tokd["start"], tokd["end"]):
-                    return True
-        except Exception:  # noqa: BLE001
-            return False
+        letter = "ü" if c != "ü" else "ö"
+        if not survives(text[:i] + letter + text[i + 1 :]):
+            continue  # literal position
+        punct = "—" if c != "—" else "“"
+        if not survives(text[:i] + punct + text[i + 1 :]):
+            return True  # category-sensitive class
+        if not survives(text[:i] + letter + letter + text[i + 1 :], 1):
+            return True  # single-character class position
     return False
 
 
@@ -419,6 +433,8 @@ def shards(tier, seed):
     out = []
     for r in range(64):
         out.append({"part": "matrix", "r": r, "n": 64, "nlen": 1 if tier == "quick" else 2})
+    for r in range(32):
+        out.append({"part": "punct", "r": r, "n": 32, "tier": tier})
     for sh in docspace.shards_for(A14, DEPTH[tier], 1):
         out.append({"part": "docs", "depth": DEPTH[tier], **sh})
     for r in range(32):
@@ -461,6 +477,24 @@ def run_shard(sh):
                     text = left + w + right
                     res, nref = check_text(text, "AC", citations=False)
                     record({"part": "matrix", "text": text, "ref": "AC", "extractor": i}, h64(text), res, nref > 0, "matrix")
+        return st
+    if sh["part"] == "punct":
+        # tokens that absorb surrounding punctuation through a character class (id., supra, stop words, section marks):
+        # every run of <= 3 ASCII / multi-byte punctuation marks on each side (the byte length of a run differs from its
+        # character length, which matters as soon as a pattern counts)
+        from eyecite.regexes import STOP_WORDS
+
+        words = ["Id.", "id.,", "Ibid.", "supra", "§", "§§"] + sorted(STOP_WORDS)
+        marks = ["“", "’", "(", ","] if sh["tier"] == "quick" else ["“", "’", "(", ",", "é", "—"]
+        runs = [""] + ["".join(t) for k in (1, 2, 3) for t in itertools.product(marks, repeat=k)]
+        if sh["tier"] != "quick":
+            runs += [m * k for m in marks for k in (4, 5, 8)]
+        pairs = [(w, a) for w in words for a in runs]
+        for w, left in pairs[sh["r"] :: sh["n"]]:
+            for right in runs:
+                text = "x " + left + w + right + " y"
+                res, nref = check_text(text, "AC", citations=False)
+                record({"part": "punct", "text": text, "ref": "AC"}, h64("P" + text), res, nref > 0, "punct")
         return st
     if sh["part"] == "bytes":
         ex = T.EXTRACTORS
